@@ -384,6 +384,8 @@ pub fn run(ctx: &mut Ctx) {
         ctx.inconclusive("corpus-empty");
         return;
     }
+    // every case is announced in the quick tier; in the thorough tier (GBs of text) only on request
+    let announce = ctx.is_quick() || std::env::var("VERIF_ANNOUNCE").is_ok();
     let mut slots: [Option<Slot>; 4] = [None, None, None, None];
     let n = ctx.budget(30_000, 600_000);
     for i in 0..n {
@@ -399,6 +401,10 @@ pub fn run(ctx: &mut Ctx) {
             ctx.extra_add("skipped_too_long", 1);
             continue;
         }
+        if announce {
+            // abort attribution (stack overflow / abort inside the analysis kills the worker)
+            ctx.announce(&json!({"text": text, "all_codes": all, "std": std, "family": family}));
+        }
         ctx.clause(&format!("family:{family}"));
         ctx.clause(if all { "cfg:all-codes" } else { "cfg:default" });
         let s = slot(&mut slots, all, std);
@@ -412,6 +418,10 @@ pub fn run(ctx: &mut Ctx) {
                 // crashes are C12's subject; the analysis object may be inconsistent now
                 ctx.inconclusive(&format!("panic-in-{wher}"));
                 ctx.extra_add(&format!("panic:{sig}"), 1);
+                let k = format!("panic_example:{sig}");
+                if !ctx.extra.contains_key(&k) {
+                    ctx.extra_set(&k, json!({"where": wher, "text": clip(&text, 2000), "all_codes": all, "std": std}));
+                }
                 slots[(all as usize) * 2 + std as usize] = None;
                 continue;
             }
